@@ -1,5 +1,8 @@
 (* Reader/printer around the extracted C46 model.
-   input : one case per line, integers separated by blanks
+   input : one case per line, integers separated by blanks; either
+             M q n  t_1 .. t_q  b_11 .. b_nq      (unit level: is_minimum / order on vectors of width q;
+                                                   output m:<0|1>;o:<one digit per k < n>)
+           or
              p q box n0  a_11 .. a_1q  ...  a_p1 .. a_pq   [ w x_1 .. x_w ]*n0
            p x q matrix A (row major); box = bound of the brute-force comparison box;
            n0 rows (width w, then the entries) that `basis` holds on entry.
@@ -28,8 +31,27 @@ let rec take k l = if k = 0 then ([], l) else match l with [] -> failwith "short
 
 let volume v = List.fold_left (fun acc x -> if acc > below_limit then acc else acc * (int_of_z x + 1)) 1 v
 
+let show_bool_res = function
+  | Ok true -> "1" | Ok false -> "0"
+  | ErrOOB (i, l) -> Printf.sprintf "OOB:%d:%d" (int_of_n i) (int_of_n l)
+  | ErrFuel -> "FUEL" | ErrExn c -> Printf.sprintf "EXN:%d" (int_of_n c)
+
+(* M q n  t_1 .. t_q  b_11 .. b_nq : is_minimum(t, basis, n) and order(t, basis, k) for k < n *)
+let process_min (ints : int list) : string =
+  match ints with
+  | q :: n :: rest ->
+      let (t, rest) = take q rest in
+      let rec rows k l = if k = 0 then [] else let (r, l') = take q l in r :: rows (k - 1) l' in
+      let b = List.map (List.map z_of_int) (rows n rest) in
+      let t = List.map z_of_int t in
+      let m = show_bool_res (is_minimum t b (nat_of_int n)) in
+      let o = String.concat "" (List.init n (fun k -> show_bool_res (order t b (nat_of_int k)))) in
+      "m:" ^ m ^ ";o:" ^ o
+  | _ -> "BADLINE"
+
 let process (line : string) : string =
   let toks = List.filter (fun s -> s <> "") (String.split_on_char ' ' (String.trim line)) in
+  if toks <> [] && List.hd toks = "M" then process_min (List.map int_of_string (List.tl toks)) else
   let ints = List.map int_of_string toks in
   match ints with
   | p :: q :: bx :: n0 :: rest ->
